@@ -10,11 +10,12 @@ ap.add_argument("-p", default="")
 ap.add_argument("-v", action="store_true")
 ap.add_argument("-j", type=int, default=6)
 ap.add_argument("--tier", default="quick")
+ap.add_argument("--equiv", action="store_true", help="run the bank of behaviour-preserving edits: every check must stay silent")
 args = ap.parse_args()
 want = set(filter(None, args.p.split(",")))
 BIN = "/verif/bin/stargzlint"
 muts = []
-for fn in sorted(glob.glob("/verif/mutants/*.json")):
+for fn in sorted(glob.glob("/verif/equivalents/*.json" if args.equiv else "/verif/mutants/*.json")):
     for m in json.load(open(fn)):
         if not want or m["property"] in want:
             muts.append(m)
@@ -35,6 +36,9 @@ def run(m):
         out = r.stdout + r.stderr
         if r.returncode == 2:
             return (m, "INVALID", out[-400:])
+        if args.equiv:
+            viol = [l for l in out.splitlines() if l.startswith("  ")]
+            return (m, "KILLED" if r.returncode == 0 else "MISSED", "\n".join(viol[:5]))
         if r.returncode == 0:
             return (m, "MISSED", "")
         exp = m.get("expect", "")
@@ -51,5 +55,7 @@ with cf.ThreadPoolExecutor(args.j) as ex:
             print("%-9s %s %s: %s" % (st, m["property"], m["id"], m.get("desc", "")))
             if info and (args.v or st != "KILLED"):
                 print("    " + info.replace("\n", "\n    "))
+if args.equiv:
+    res = {"SILENT": res["KILLED"], "FALSE_ALARM": res["MISSED"], "INVALID": res["INVALID"], "SKIP": res["SKIP"]}
 print(json.dumps(res))
-sys.exit(0 if res["MISSED"] == 0 and res["INVALID"] == 0 and res["WRONGSITE"] == 0 else 1)
+sys.exit(0 if res.get("MISSED", 0) == 0 and res.get("FALSE_ALARM", 0) == 0 and res["INVALID"] == 0 and res.get("WRONGSITE", 0) == 0 else 1)
